@@ -206,6 +206,8 @@ def main(pid):
         "reduction_assumption bad bit guards the coordinator-side exemption); fn start fused with the preceding `stop` test",
         "bounds: the listed (N, W) instances only; graphs with more nodes / more workers are outside the claim",
         "z3 bit-vector width 4 for counters (overflow is a bad bit)",
+        "queue contract lemma (E1, xh/harness_queue.py): the real RandomQueue / PriorityQueue / simple queue under CrossHair with a stubbed `random` "
+        "(randrange within its documented range, shuffle = a symbolic permutation), symbolic items/priorities, operation strings of <= 8 put/get",
     ]
     ev.write()
     print(f"{pid} {tier}: {len(ok_inst)}/{len(results)} instances clean, {nq} queries, solver {solver_s:.0f}s, {validated} schedules replayed on real threads, exit {code}")
@@ -223,4 +225,18 @@ def classify_finding(pid, r, out):
 
 
 def lemma_conditions(pid, tier):
-    return []
+    """E1 lemmas the engine model leans on: the real queue classes honour the queue.Queue contract the model assumes
+    (xh/harness_queue.py).  C04 carries the full set; the other engine checks a short one."""
+    if pid not in ("C01", "C04", "C06", "C07", "C10", "C17"):
+        return []
+    full = pid == "C04" or tier == "thorough"
+    combos = [(2, "ppgg"), (1, "pgpg"), (3, "gpgg")] if full else [(2, "ppgg")]
+    if pid == "C04" and tier == "thorough":
+        combos += [(3, "ppppgggg"), (0, "pppgpg"), (2, "pgppgg")]
+    cs = []
+    for kind in ("random", "priority", "simple"):
+        for ninit, ops in combos:
+            cs.append(xhrun.Cond("harness_queue", "c04_queue", {"XH_Q": kind, "XH_NINIT": ninit, "XH_OPS": ops}, timeout=300,
+                                 label=f"queue_contract_{kind}_init{ninit}_{ops}"))
+    cs.append(xhrun.Cond("harness_queue", "c04_create_queue", {}, timeout=300, label="queue_contract_create_queue"))
+    return cs
